@@ -32,7 +32,7 @@ def required_counters(tier):
         "overlap:io-trylock-failed-against-worker",
         "overlap:both-threads-flushed",
         "overlap:parsed-while-executing",
-        "responses_checked", "executions_checked", "runs_with_preemption",
+        "responses_checked", "executions_checked", "runs_with_preemption", "traces_validated_against_impl",
     ]
 
 
@@ -143,6 +143,8 @@ def plan(tier, seed):
     for s in range(min(nenum, len(DIRECTED))):
         for p in range(parts):
             specs.append({"mode": "enum", "scn": DIRECTED[s], "part": p, "parts": parts, "cap": 900 if tier == "quick" else None})
+    for i in range(2 if tier == "quick" else 16):
+        specs.append({"mode": "real", "seed": seed * 977 + i, "n": 12 if tier == "quick" else 40})
     for s in range(max(0, nenum - len(DIRECTED))):
         for p in range(parts):
             specs.append({"mode": "enum", "gen_seed": seed * 7 + s, "part": p, "parts": parts, "cap": None})
@@ -316,7 +318,70 @@ def run_one(acc, scn, strat, label):
             acc.count("leaked_threads", leaked)
 
 
+def run_real_crosscheck(spec):
+    """DESIGN.md 5 item 2: the same scenarios on the real kernel (real threads, real
+    sockets on 127.0.0.1, seeded sleep(0) injection) and in the Sim must give the same
+    boundary observations.  A disagreement is a defect of the harness: inconclusive."""
+    from vf import real
+
+    acc = Acc()
+    rng = random.Random(spec["seed"])
+    scns = []
+    for _ in range(spec["n"]):
+        scn = gen_scenario(rng, small=True)
+        for c in scn["conns"]:
+            c.pop("send_caps", None)
+        scn["adj"].pop("recv_bytes", None)
+        scns.append(scn)
+    reals = []
+    for k, scn in enumerate(scns):
+        r = real.run_real(scn, perturb_seed=spec["seed"] * 100 + k if k % 2 else None)
+        reals.append(real.boundary(scn, r["conns"], r["log"]))
+        judge_boundary(acc, scn, reals[-1], "real")
+        if r.get("error"):
+            acc.violation("io-thread-died", "real-kernel run: " + r["error"], {"scn": scn, "where": "real"})
+    # only now is the Sim loaded (it rebinds module globals of waitress)
+    from vf.sim import runner
+
+    for k, scn in enumerate(scns):
+        o = runner.run_scenario(scn, {"kind": "np"}, wall_timeout=60)
+        try:
+            conns = [{"received": r["client"].received if r.get("client") else b"", "eof": r["client"].eof() if r.get("client") else False}
+                     for r in o.results]
+            sim_b = real.boundary(scn, conns, [(c, i, what) for _, c, i, what in o.log.events])
+        finally:
+            runner.finish(o)
+        acc.evaluations += 1
+        acc.distinct.add("real|%d|%d" % (spec["seed"], k))
+        acc.count("traces_validated_against_impl")
+        if sim_b != reals[k]:
+            acc.inconclusive.append("sim-vs-real-kernel disagreement: scenario %s sim=%s real=%s" % (scn, sim_b, reals[k]))
+            acc.count("sim_real_disagreements")
+    acc.sample({"real_kernel_crosscheck": scns[0], "boundary": reals[0]})
+    return acc.out()
+
+
+def judge_boundary(acc, scn, b, where):
+    """the C04 oracle on boundary observations of a real-kernel run"""
+    from vf.sim import scenario as SC
+
+    for i, cs in enumerate(scn["conns"]):
+        reqs = cs["requests"]
+        expected = SC.expected_responses(reqs)
+        ob = b[i]
+        if ob["executed"] != expected[: len(ob["executed"])] or len(set(ob["executed"])) != len(ob["executed"]):
+            acc.violation("executed-out-of-order", f"{where}: conn {i} executed {ob['executed']}, expected {expected}", {"scn": scn, "where": where})
+        for j, f in enumerate(ob["finals"]):
+            status, tag, ok, ln, complete = f
+            if j < len(expected) and tag is not None and tag != "%d-%d" % (i, expected[j]):
+                acc.violation("response-order", f"{where}: conn {i} response {j} tagged {tag}", {"scn": scn, "where": where})
+            if ok is False:
+                acc.violation("response-payload-corrupt", f"{where}: conn {i} response {j} payload corrupt", {"scn": scn, "where": where})
+
+
 def run_shard(spec):
+    if spec["mode"] == "real":
+        return run_real_crosscheck(spec)
     from vf.sim import runner
 
     acc = Acc()
@@ -364,6 +429,7 @@ def finish(agg, tier, coverage):
         "enum_capped); random-walk and PCT schedules are sampled"
     )
     coverage["distinct_schedules"] = len(agg["distinct"])
+    coverage["traces_validated_against_impl"] = agg["counters"].get("traces_validated_against_impl", 0)
 
 
 def replay(case):
